@@ -1155,6 +1155,7 @@ def run(rep, tier):
     c07.rule_fold(_Rename(rep, {'R1': 'R10'}), idx)
     c07.rule_fold_effects(_Rename(rep, {'R8': 'R13'}), idx)
     c07.rule_rewrite_evaluations(_Rename(rep, {'R10': 'R17'}), idx)
+    c07.rule_scoped_propagation(_Rename(rep, {'R9': 'R18'}), idx)
 
 
 class _Rename:
